@@ -5,6 +5,7 @@ import (
 	"go/constant"
 	"go/token"
 	"go/types"
+	"sort"
 	"strings"
 
 	"golang.org/x/tools/go/ssa"
@@ -64,7 +65,8 @@ func (c *Ctx) autoInvariants(fr *Frame, li *loopInfo, st *State, phis map[*ssa.P
 			out = append(out, fmt.Sprintf("(or (= %s 0) (>= %s %s))", cur, cur, c.entry.alloc))
 		}
 		// address-taken local slice variables (captured by closures): same, through their cell
-		for a, cur := range st.locals {
+		for _, a := range sortedAllocs(st.locals) {
+			cur := st.locals[a]
 			_, isSl := a.Type().(*types.Pointer).Elem().Underlying().(*types.Slice)
 			if !isSl || a.Parent() != fr.fn {
 				continue
@@ -318,7 +320,7 @@ func (c *Ctx) havocLoop(fr *Frame, li *loopInfo, entry *State, reach string) *St
 	}
 	ms := c.mods.LoopMods(fr.fn, li.blocks)
 	c.applyMods(st, ms)
-	for a := range ms.Locals {
+	for _, a := range sortedAllocs(ms.Locals) {
 		if _, ok := st.locals[a]; ok || !c.escapes(a) {
 			elem := a.Type().(*types.Pointer).Elem()
 			v := c.havocVal("loc_"+a.Comment, elem)
@@ -328,7 +330,12 @@ func (c *Ctx) havocLoop(fr *Frame, li *loopInfo, entry *State, reach string) *St
 	}
 	// stores through captured variables of enclosing frames
 	if len(ms.FreeVarStores) > 0 {
+		var fvs []*ssa.FreeVar
 		for fv := range ms.FreeVarStores {
+			fvs = append(fvs, fv)
+		}
+		sort.Slice(fvs, func(i, j int) bool { return fvs[i].Name() < fvs[j].Name() })
+		for _, fv := range fvs {
 			if v, ok := fr.vals[fv]; ok && v.L != nil && v.L.Kind == LLocal {
 				elem := v.L.Root
 				hv := c.havocVal("loc_"+v.L.Local.Comment, elem)
@@ -905,6 +912,52 @@ func (c *Ctx) valueResult(fn *ssa.Function) bool {
 func isPanObjectIface(t types.Type) bool {
 	ts := types.TypeString(t, nil)
 	return ts == repoMod+"/object.PanObject" || ts == repoMod+"/object.PanScalar"
+}
+
+// mapValInvs: invariants declared on a map type (`invariant map[object.SymHash]object.Pair: ...`): every value
+// ever stored under that Go map type satisfies them. Checked at each map update (WF.store), assumed at each
+// read - sound by induction over all stores of the program, like type invariants.
+func (c *Ctx) mapValInvs(mt *types.Map) []*TypeInv {
+	var out []*TypeInv
+	for _, ti := range c.sp.TypeInvs {
+		if !strings.HasPrefix(ti.Type, "map[") {
+			continue
+		}
+		// resolved through the type checker (SymHash is an alias of uint64)
+		t, err := c.w.LookupType(ti.Type, ti.Pkg)
+		if err != nil {
+			c.unsupportedf("invariant %s: %v", ti.Type, err)
+			continue
+		}
+		if types.Identical(t, mt) {
+			out = append(out, ti)
+		}
+	}
+	return out
+}
+
+func (c *Ctx) wfMapStore(reach string, pos token.Pos, term string, mt *types.Map, st *State) {
+	c.wfStore(reach, pos, term, mt.Elem(), st, "map entry")
+	if !c.wants("WF") || c.specDepth > 0 {
+		return
+	}
+	for _, ti := range c.mapValInvs(mt) {
+		if f, ok := c.invTerm(ti, term, mt.Elem(), st); ok {
+			c.oblige("WF", "WF.store", pos, reach, f, "map entry: a value stored in a "+ti.Type+" must satisfy ("+ti.Text+")")
+		}
+	}
+}
+
+func (c *Ctx) wfMapRead(reach string, term string, mt *types.Map, st *State) {
+	c.wfRead(reach, term, mt.Elem(), st)
+	if c.specDepth > 0 || c.noWF {
+		return
+	}
+	for _, ti := range c.mapValInvs(mt) {
+		if f, ok := c.invTerm(ti, term, mt.Elem(), st); ok {
+			c.assume(reach, f)
+		}
+	}
 }
 
 // wfStore: what is written into a container element / map value must be a value.
